@@ -23,6 +23,55 @@ def doc_column(i):
     return "nil" if not i["cfg"] else ("true" if i["insecure"] else "false")
 
 
+def _probe_tls(ctx, vecs):
+    """Binding probe: a recorded vector with ONE observation falsified must be rejected by TLC."""
+    ok = [v for v in vecs if not v["err"] and not v["panic"]]
+    if not ok:
+        raise vf.Inconclusive("no successful TLS row to probe the binding with")
+    probes = []
+    a = json.loads(json.dumps(ok[0])); a["verify"] = not a["verify"]; probes.append((a, "verify"))
+    b = json.loads(json.dumps(ok[1 % len(ok)])); b["untouched"] = False; probes.append((b, "caller-mutated"))
+    c = json.loads(json.dumps(ok[2 % len(ok)])); c["hs"]["wrongca"] = "ok" if c["hs"]["wrongca"] != "ok" else "fail"
+    probes.append((c, "handshake-wrongca"))
+    pp = os.path.join(ctx.tmp, "tls_probe.ndjson")
+    vf.write_ndjson(pp, [ok[0]] + [p for p, _ in probes])
+    t = vf.run_tlc(ctx, "Trace_TlsVec", "Trace_TlsVec.cfg", workers=1, timeout=300, deadlock=False, env={"VF_TRACE": pp},
+                   name="tlsvec_probe", quiet=True)
+    got = {mv["line"]: mv["kinds"] for mv in vf.tlc_printed(t.out, "MONVIOL")}
+    if not t.ok or 1 in got or any(k not in got.get(i + 2, []) for i, (_, k) in enumerate(probes)):
+        raise vf.Inconclusive("binding probe failed: falsified TLS vectors were not rejected as expected: %s" % got)
+
+
+def _probe_auth(ctx, ordered):
+    """Binding probe: a real trace with one token byte changed / an AUTH_RESPONSE moved behind an unapproved
+    class must be rejected by TLC."""
+    # first case that sent a token
+    ids = [e["id"] for e in ordered if e["ev"] == "cli" and e["op"] == 15 and e["token"]]
+    if not ids:
+        raise vf.Inconclusive("no AUTH_RESPONSE recorded to probe the binding with")
+    one = [json.loads(json.dumps(e)) for e in ordered if e["id"] == ids[0]]
+    bad = [json.loads(json.dumps(e)) for e in one]
+    for e in bad:
+        e["id"] = ids[0] + 1000000
+    k = next(i for i, e in enumerate(bad) if e["ev"] == "cli" and e["op"] == 15)
+    bad[k]["token"][-1] = (bad[k]["token"][-1] + 1) % 256
+    bad2 = [json.loads(json.dumps(e)) for e in one]
+    for e in bad2:
+        e["id"] = ids[0] + 2000000
+        if e["ev"] == "srv" and e["what"] == "authenticate":
+            e["class"] = "com.evil.auth.CredentialCollector"
+    pp = os.path.join(ctx.tmp, "auth_probe.ndjson")
+    vf.write_ndjson(pp, one + bad + bad2)
+    t = vf.run_tlc(ctx, "Trace_Auth", "Trace_Auth.cfg", workers=1, timeout=300, deadlock=False, env={"VF_TRACE": pp},
+                   name="auth_probe", quiet=True)
+    got = collections.defaultdict(list)
+    for mv in vf.tlc_printed(t.out, "MONVIOL"):
+        got[mv["id"]] += mv["kinds"]
+    if not t.ok or got.get(ids[0]) or "token-not-sasl-plain" not in got.get(ids[0] + 1000000, []) or \
+            "credentials-to-unapproved-class" not in got.get(ids[0] + 2000000, []):
+        raise vf.Inconclusive("binding probe failed: falsified auth traces were not rejected as expected: %s" % dict(got))
+
+
 def _flush(ctx, agg):
     """One violation per key (class of failing input), with the first occurrence as the witness."""
     for key, l in agg.items():
@@ -41,22 +90,35 @@ def tls_part(ctx, binary):
     rows.sort(key=lambda r: _key(r["in"]))
     import random
     random.Random(ctx.seed).shuffle(rows)
-    rp, vp = os.path.join(ctx.tmp, "tls_rows.ndjson"), os.path.join(ctx.tmp, "tls_vec.ndjson")
+    rp = os.path.join(ctx.tmp, "tls_rows.ndjson")
     vf.write_ndjson(rp, [{"id": i, "in": r["in"]} for i, r in enumerate(rows)])
-    rc, out = vf.run_gotest(ctx, binary, "^TestVfC20Tls$", env={"VF_C20_ROWS": rp, "VF_C20_VEC": vp}, timeout=600)
-    m = re.search(r"^VFSUMMARY (.*)$", out, re.M)
-    if not m or "--- PASS" not in out:
-        raise vf.Inconclusive("TLS driver failed:\n" + out[-3000:])
-    summ = json.loads(m.group(1))
-    vecs = vf.read_ndjson(vp)
-    # every generated row was executed exactly once, with the inputs TLC generated
-    if len(vecs) != len(rows) or any(_key(v["in"]) != _key(rows[v["id"]]["in"]) for v in vecs) or \
-            len({v["id"] for v in vecs}) != len(rows):
-        raise vf.Inconclusive("the TLS driver did not execute every generated row exactly once (%d of %d)" % (len(vecs), len(rows)))
-    t = vf.run_tlc(ctx, "Trace_TlsVec", "Trace_TlsVec.cfg", workers=1, timeout=600, deadlock=False, env={"VF_TRACE": vp})
-    if not t.ok or t.distinct != len(vecs) + 1:
-        raise vf.Inconclusive("Trace_TlsVec failed: %s\n%s" % (t.error or t.violated, t.out[-2000:]))
-    mon = vf.tlc_printed(t.out, "MONVIOL")
+    # the file variants (which kind of garbage, which half of the key pair is bad) rotate with seed + row id;
+    # the thorough tier runs all four rotations, so every row meets every variant
+    vecs, tstates, ttrans = [], 0, 0
+    mon = []
+    for rot in ([0] if ctx.tier == "quick" else [0, 1, 2, 3]):
+        vp = os.path.join(ctx.tmp, "tls_vec_%d.ndjson" % rot)
+        rc, out = vf.run_gotest(ctx, binary, "^TestVfC20Tls$", env={"VF_C20_ROWS": rp, "VF_C20_VEC": vp, "VF_SEED": ctx.seed + rot},
+                                timeout=600)
+        m = re.search(r"^VFSUMMARY (.*)$", out, re.M)
+        if not m or "--- PASS" not in out:
+            raise vf.Inconclusive("TLS driver failed:\n" + out[-3000:])
+        part = vf.read_ndjson(vp)
+        # every generated row was executed exactly once, with the inputs TLC generated
+        if len(part) != len(rows) or any(_key(v["in"]) != _key(rows[v["id"]]["in"]) for v in part) or \
+                len({v["id"] for v in part}) != len(rows):
+            raise vf.Inconclusive("the TLS driver did not execute every generated row exactly once (%d of %d)" % (len(part), len(rows)))
+        t = vf.run_tlc(ctx, "Trace_TlsVec", "Trace_TlsVec.cfg", workers=1, timeout=600, deadlock=False, env={"VF_TRACE": vp},
+                       name="tlsvec_%d" % rot)
+        if not t.ok or t.distinct != len(part) + 1:
+            raise vf.Inconclusive("Trace_TlsVec failed: %s\n%s" % (t.error or t.violated, t.out[-2000:]))
+        for mv in vf.tlc_printed(t.out, "MONVIOL"):
+            mv["line"] += len(vecs)
+            mon.append(mv)
+        vecs += part
+        tstates += t.distinct
+        ttrans += t.generated
+    _probe_tls(ctx, vecs)
     nviol = 0
     agg = collections.OrderedDict()
     unexpected_err = []
@@ -116,7 +178,7 @@ def tls_part(ctx, binary):
     nhs = sum(1 for v in vecs for r in v["hs"].values() if r != "none")
     ctx.log("TLS table: %d rows executed, %d real handshakes, %d mismatching aspects" % (len(vecs), nhs, nviol))
     sample = next((v for v in ok if v["in"]["cfg"] and v["in"]["insecure"] and v["in"]["hv"] and v["in"]["host"] == "ipv6"), vecs[0])
-    return dict(states=g.distinct + t.distinct, transitions=g.generated + t.generated, rows=len(rows), handshakes=nhs,
+    return dict(states=g.distinct + tstates, transitions=g.generated + ttrans, rows=len(rows), executions=len(vecs), handshakes=nhs,
                 rows_with_error_required=sum(1 for r in rows if r["exp"]["err"]),
                 sample=dict(kind="tls-row", row=sample["in"], required=[r for r in rows if _key(r["in"]) == _key(sample["in"])][0]["exp"],
                             observed=dict(verify=sample["verify"], name=sample["name"], name2=sample["name2"], hs=sample["hs"],
@@ -187,6 +249,7 @@ def auth_part(ctx, binary):
     if not t.ok or t.distinct != len(ordered) + 1:
         raise vf.Inconclusive("Trace_Auth failed: %s\n%s" % (t.error or t.violated, t.out[-2000:]))
     mon = vf.tlc_printed(t.out, "MONVIOL")
+    _probe_auth(ctx, ordered)
     nviol = 0
     agg = collections.OrderedDict()
     for mv in mon:
@@ -247,9 +310,9 @@ def run(ctx):
     auth = auth_part(ctx, binary)
     ctx.cov = dict(
         states=tls["states"] + auth["states"], transitions=tls["transitions"] + auth["transitions"],
-        traces_validated_against_impl=tls["rows"] + auth["sessions"],
+        traces_validated_against_impl=tls["executions"] + auth["sessions"],
         exhaustive=True,
-        tls_rows=tls["rows"], tls_rows_error_required=tls["rows_with_error_required"], tls_real_handshakes=tls["handshakes"],
+        tls_rows=tls["rows"], tls_row_executions=tls["executions"], tls_rows_error_required=tls["rows_with_error_required"], tls_real_handshakes=tls["handshakes"],
         auth_behaviours=auth["behaviours"], auth_sessions=auth["sessions"], auth_credential_pairs=auth["credential_pairs"],
         auth_responses_captured=auth["auth_responses"], auth_trace_events=auth["trace_events"],
         auth_child_crashes_c05=auth["crashes_c05"],
